@@ -420,8 +420,9 @@ def finish(mod, tier, seed, results, twin_res, not_reached, t0):
     ev = dict(property_id=prop, tier=tier, seed=seed, level=level, coverage=cov,
               assumptions=list(getattr(mod, 'ASSUMPTIONS', [])), wall_s=round(wall, 2),
               violations=n_viol_new)
-    os.makedirs(os.path.join(VERIF, 'evidence'), exist_ok=True)
-    with open(os.path.join(VERIF, 'evidence', f'{prop}.json'), 'w') as f:
+    evdir = os.environ.get('VERIF_EVIDENCE_DIR') or os.path.join(VERIF, 'evidence')  # self-tests redirect it
+    os.makedirs(evdir, exist_ok=True)
+    with open(os.path.join(evdir, f'{prop}.json'), 'w') as f:
         json.dump(ev, f, indent=1)
     try:
         os.makedirs(os.path.join(VERIF, '.work'), exist_ok=True)
